@@ -65,13 +65,14 @@ QUEUE_CFG = {
         "QTypes": {3, 11, 13},
         "MaxQ": 4,
     },
-    # model-checked, covered call by call
+    # model-checked and replayed until every (state, call) pair of the graph was exercised
     "wide": {
         "Evs": [E(3, 1), E(3, 2), E(5, 2), E(11), E(11), E(13)],
         "Times": {(1, "ms"), (1000, "us"), (2000, "us")},
         "QTypes": {3, 5, 11, 13, 14},
         "MaxQ": 4,
     },
+    # model-checked only (thorough tier)
     "wide_thorough": {
         "Evs": [E(3, 1), E(3, 2), E(5, 1), E(5, 2), E(1, 2), E(11), E(11), E(13), E(6)],
         "Times": {(1, "ms"), (1000, "us"), (2000, "us"), (1, "s")},
@@ -308,8 +309,8 @@ def _replay_grid(res, cases):
 def _limb_job(scratch, tier, which):
     res = CheckResult(PID, tier)
     if which == "tiny":
-        # base 3 (4), 5 limbs: 0..242 (0..1023); x, y in -100..100 (-400..400): every result fits, exhaustive
-        rng_ = 100 if tier == "quick" else 400
+        # base 3 (4), 5 limbs: 0..242 (0..1023); x, y in -70..70 (-400..400): every result fits, exhaustive
+        rng_ = 70 if tier == "quick" else 400
         consts = {"LimbBase": 3 if tier == "quick" else 4, "LimbN": 5}
         defs = (
             f"VARIABLE c\nInit == c \\in ((0 - {rng_})..{rng_}) \\X ((0 - {rng_})..{rng_})\nNext == UNCHANGED c\n"
@@ -737,15 +738,15 @@ class QueueAdapter:
         return {"len": len(self.q)}
 
     def abstract(self, state):
-        return dict(state["obs"])
-
-
-_MUT = ("Add", "Retime", "Remove", "Pop")
+        return {"len": state["obs"]["len"]}
 
 
 def _queue_clause(d):
-    """Clause a divergence of the queue replay is reported under: the failing call, refined
-    for wrong answers of pop / peek by the mutator that preceded them."""
+    """Clause a divergence of the queue replay is reported under.  The statement has three
+    parts: events come out in (time, type priority) order [pop_min / pop_order], also after
+    events were re-timed [retime] or removed [remove]; get_next_event_of_type is the simulator's
+    other ordered read [next_of_type].  A wrong answer of pop / peek is filed by the history it
+    happened on: the latest Retime / Remove in it, pop_min if it has neither."""
     name = (d.label or "").split("(")[0]
     if name.startswith("NextOfType"):
         return "C16.next_of_type"
@@ -753,10 +754,10 @@ def _queue_clause(d):
         return "C16.remove"
     if name.startswith("Retime"):
         return "C16.retime"
-    prev = [p.split("(")[0] for p in d.path[:-1]]
-    prev = [p for p in prev if p in ("Add", "Retime", "Remove")]
-    if name.startswith(("Pop", "Peek")) and prev:
-        return {"Retime": "C16.retime", "Remove": "C16.remove"}.get(prev[-1], "C16.pop_min")
+    hist = [p.split("(")[0] for p in d.path[:-1]]
+    hist = [p for p in hist if p in ("Retime", "Remove")]
+    if name.startswith(("Pop", "Peek")) and hist:
+        return {"Retime": "C16.retime", "Remove": "C16.remove"}[hist[-1]]
     return "C16.pop_min"
 
 
@@ -772,6 +773,11 @@ def _queue_verdicts(res, divs, orders):
         hist, last = d["path"][:-1], d["path"][-1] if d["path"] else d["label"]
         if kind == "outcome":
             what = f"after {hist} the real queue answered {d['got']}; the spec allows only {d['expected']}"
+            if d.get("first_in_time_and_type"):
+                what += (
+                    " [the answer is first in (time, type priority); only the task-name tie-break of "
+                    "Event.__lt__ (conv.task_name_tiebreak) is not respected]"
+                )
         elif kind == "state":
             what = f"after {hist} + {last}: projection {d['got']} but the spec state has {d['expected']}"
         else:
@@ -826,7 +832,16 @@ def _queue_replay_job(tier, cname, mode, shard, depth, budget):
     if rp.sample_path:
         res.extra["_sample"] = [{"model": cname, "mode": mode, "replayed_path": rp.sample_path}]
     res.extra["_covered"] = {f"{cname}": sorted(rp.covered)} if mode == "cover" else {}
-    res.extra["_divs"] = [dict(d.detail(), clause=_queue_clause(d), model=cname) for d in rp.divergences]
+    divs = []
+    for d in rp.divergences:
+        det = dict(d.detail(), clause=_queue_clause(d), model=cname)
+        src = getattr(d, "src", None)
+        if src is not None and d.kind == "outcome" and d.label.startswith(("Pop(", "Peek(")):
+            # the spec says whether the answer was at least first in (time, type priority)
+            got_id = tlaval.split_call(d.label)[1][0]
+            det["first_in_time_and_type"] = got_id in g.states[src]["obs"]["keymin"]
+        divs.append(det)
+    res.extra["_divs"] = divs
     res.extra["_order"] = [dict(v, model=cname) for v in ad.order_violations[:20]]
     res.extra["queue_order_violations"] = len(ad.order_violations)
     return res
@@ -860,20 +875,28 @@ def run(tier: str) -> CheckResult:
         "events of a task-carrying type always carry a task and the others never do (what Event.__init__ enforces / "
         "simulator.py does), so Event.__lt__ is a strict weak order",
         "Retime = assignment to Event._time followed by EventQueue.reheapify(), as simulator.py:816-819,1135-1136 does",
+        "conv.task_name_tiebreak: at equal time and type, events that both carry a task come out in the order of "
+        "Task.unique_name (Event.__lt__); the statement only speaks of time and type priority, the spec pins the "
+        "code's convention and marks a breach of it alone as such",
         "comparison of EventTime with other types is out of scope",
     ]
     ns()
+    marks = [("start", time.time())]
     with Scratch() as scratch:
         calls = gen_calls(tier, rng("c16:records"))
         above = gen_above_bound()
         nb = 3 if q else 12
         batches = [calls[i::nb] for i in range(nb)]
-        wide = "wide" if q else "wide_thorough"
+        wide = "wide"
         jobs = [("queue_mc", scratch, tier, "paths", True), ("queue_mc", scratch, tier, wide, True)]
+        if not q:  # model-checked only: the graph is too large to dump
+            jobs.append(("queue_mc", scratch, tier, "wide_thorough", False))
         jobs += [("grid", scratch, tier), ("limbs", scratch, tier, "tiny"), ("limbs", scratch, tier, "boundary")]
         jobs += [("records", scratch, tier, f"b{i}", b) for i, b in enumerate(batches)]
         jobs += [("records", scratch, tier, "above", above)]
+        marks.append(("generated_calls", time.time()))
         parts = parallel(_stage1, jobs, procs=16)
+        marks.append(("tlc_stage", time.time()))
         dots = {}
         fails = {}
         rsamples = []
@@ -927,6 +950,7 @@ def run(tier: str) -> CheckResult:
             _GRAPHS[cname] = (g, {(i, tuple(t)): tuple(k) for (i, t), k in kt})
             res.extra.setdefault("queue_graphs", {})[cname] = {
                 "states": len(g.states), "edges": sum(len(v) for v in g.edges.values())}  # fmt: skip
+        marks.append(("graphs_loaded", time.time()))
         # mutator depth: observers at the end + drain / observers after every step + drain
         d_end, d_inline = (4, 3) if q else (5, 4)
         budget = 75 if q else 900
@@ -938,7 +962,7 @@ def run(tier: str) -> CheckResult:
             rjobs += [(tier, "paths", "sampled", (k, n3), (5, 6, 8) if q else (6, 7, 8, 10), budget) for k in range(n3)]
             rjobs += [(tier, "paths", "cover", (0, 1), 0, budget * 0.8)]
         if wide in _GRAPHS:
-            n4 = 3 if q else 1
+            n4 = 3
             rjobs += [(tier, wide, "cover", (k, n4), 0, budget * 0.8) for k in range(n4)]
         covered = collections.defaultdict(set)
         counts = collections.defaultdict(collections.Counter)
@@ -954,6 +978,8 @@ def run(tier: str) -> CheckResult:
             orders += p.extra.pop("_order", [])
             res.merge(p)
         _queue_verdicts(res, divs, orders)
+        marks.append(("queue_replay", time.time()))
+        res.extra["stage_wall_s"] = {b[0]: round(b[1] - a[1], 1) for a, b in zip(marks, marks[1:])}
         res.extra["queue_calls_made"] = dict(counts["calls"])
         res.extra["queue_outcomes"] = dict(counts["outcomes"])
         res.extra["queue_pops_checked_after"] = dict(counts["pops_after"])
@@ -970,3 +996,44 @@ def run(tier: str) -> CheckResult:
                 "(see coverage.queue_replay)"
             )
     return res
+
+
+def replay(d: dict) -> int:
+    """`run.py --replay <file>`: re-execute a stored counterexample against the repository.
+    Returns 1 when the deviation is still there."""
+    det = d.get("detail", {})
+    ns()
+    if "path" in det and "model" in det:  # event-queue history
+        cfg = QUEUE_CFG[det["model"]]
+        keytab = collections.defaultdict(lambda: (0, 0, 0))
+        ad = QueueAdapter(cfg, keytab)
+        ad.fresh()
+        print(f"re-executing {len(det['path'])} calls on a fresh EventQueue ({det['model']} constants)")
+        last = None
+        for label in det["path"]:
+            name, args = tlaval.split_call(label)
+            call = ad.call_of(name, args)
+            try:
+                out = ad.invoke(*call)
+                last = f"{out[0]}({','.join(tlaval.to_tla(a) for a in out[1])})" if out[1] else out[0]
+            except Exception as ex:  # noqa
+                last = f"raised {ex!r}"
+            print(f"  {label:40s} -> {last}")
+        if det.get("expected") and det.get("kind") == "outcome":
+            still = last not in det["expected"]
+            print(f"spec allows {det['expected']}; code answered {last}: {'STILL DEVIATES' if still else 'now conforms'}")
+            return 1 if still else 0
+        return 1 if ad.order_violations else 0
+    if "op" in det:  # grid case
+        vals = [mk_time(v) for v in det["operands"] if isinstance(v, list)]
+        print(f"operands {det['operands']} -> real objects {vals}; expected {det['expected']}, recorded {det['got']}")
+        return 1
+    if "call" in det:  # recorded call on big magnitudes: execute it again and let TLC judge
+        c = det["call"]
+        call = (1, c["kind"]) + tuple(tuple(c[k]) if isinstance(c[k], list) else c[k] for k in ("a", "b", "x", "y", "k") if k in c)
+        with Scratch() as scratch:
+            r = _records_job(scratch, "quick", "replay", [call])
+        fails = r.extra["_fails"]["replay"]
+        print(f"call {c}: RecFailed = {fails[0]['clauses'] if fails else []}")
+        return 1 if fails else 0
+    return 0
